@@ -1,6 +1,12 @@
 package main
 
-import "fmt"
+import (
+	"encoding/base64"
+	"fmt"
+	"strings"
+
+	"github.com/google/go-tpm/legacy/tpm2"
+)
 
 // C03: the statement binds the exact authenticator data and client-data hash.
 func init() {
@@ -121,7 +127,7 @@ func init() {
 						vs := off
 						off = cborSkip(b.Stmt, off)
 						key := string(b.Stmt[ks+1 : vs])
-						if !(key == "sig" || key == "certInfo" || key == "response" || (key == "x5c" && f == "apple")) {
+						if !(key == "sig" || key == "certInfo" || key == "pubArea" || key == "response" || (key == "x5c" && f == "apple")) {
 							continue
 						}
 						_, bodyStart := cborReadHead(b.Stmt, vs)
@@ -147,8 +153,20 @@ func init() {
 							mb.Stmt[by] ^= 1 << uint(r.Intn(8))
 							op := mb.AttestOp(fmtID(f))
 							op["_dev"] = "flip-" + key
-							if key != "x5c" {
+							// ground truth: the statement must stop verifying when the DECODED content of the binding element changes
+							// (a re-spelling that decodes to the same fields — a non-canonical base64url character in the JWS, a TPM2B size
+							// prefix that go-tpm does not use — is not a change of the element's content)
+							switch key {
+							case "sig":
 								op["_expectOK"] = false
+							case "certInfo", "pubArea":
+								if tpmContentChanged(key, b.Stmt[bodyStart:end], mb.Stmt[bodyStart:end]) {
+									op["_expectOK"] = false
+								}
+							case "response":
+								if jwsContentChanged(b.Stmt[bodyStart:end], mb.Stmt[bodyStart:end]) {
+									op["_expectOK"] = false
+								}
 							}
 							executors["attest"](c, "bind.element."+f+"."+key, op)
 						}
@@ -169,4 +187,48 @@ func init() {
 			}
 		}},
 	)
+}
+
+// tpmContentChanged: do the two byte strings decode (go-tpm) to different structures? Undecodable counts as changed.
+func tpmContentChanged(key string, a, b []byte) bool {
+	re := func(x []byte) (out []byte, ok bool) {
+		defer func() {
+			if recover() != nil {
+				ok = false
+			}
+		}()
+		if key == "certInfo" {
+			ad, err := tpm2.DecodeAttestationData(x)
+			if err != nil {
+				return nil, false
+			}
+			e, err := ad.Encode()
+			return e, err == nil
+		}
+		p, err := tpm2.DecodePublic(x)
+		if err != nil {
+			return nil, false
+		}
+		e, err := p.Encode()
+		return e, err == nil
+	}
+	ea, oka := re(a)
+	eb, okb := re(b)
+	return !oka || !okb || string(ea) != string(eb)
+}
+
+// jwsContentChanged: do the three segments of the compact JWS decode (leniently, as Go's RawURLEncoding does) to different bytes?
+func jwsContentChanged(a, b []byte) bool {
+	sa, sb := strings.Split(string(a), "."), strings.Split(string(b), ".")
+	if len(sa) != 3 || len(sb) != 3 {
+		return true
+	}
+	for i := 0; i < 3; i++ {
+		da, ea := base64.RawURLEncoding.DecodeString(sa[i])
+		db, eb := base64.RawURLEncoding.DecodeString(sb[i])
+		if ea != nil || eb != nil || string(da) != string(db) {
+			return true
+		}
+	}
+	return false
 }
